@@ -12,11 +12,14 @@ func TestProp(t *testing.T) {
 		ID:    "C11",
 		Level: "exploration",
 		Rule: "Names are generated from a path grammar (plain segments, '.', '..', empty segments, '/' and '\\' separators, " +
-			"leading/trailing separators, aliases of a really existing upload id, over-long / NUL / doubly-encoded specials) and " +
+			"leading/trailing separators, aliases of a really existing upload id, climbs into a sibling of the store directory — other services' " +
+			"directories and names that merely extend the store directory's own base name such as ../upload.bak/victim, existing or not —, " +
+			"over-long / NUL / doubly-encoded specials) and " +
 			"encoded character by character (raw, %XX, %xx, %25XX). Each case sends a short sequence of raw HTTP/1.1 requests over " +
 			"a TCP socket (no client-side path cleaning) to a real build-index tag server, origin blob server or agent server whose stores live in " +
 			"<box>/l1/l2/svc/{upload,cache}, or calls the store APIs directly with the decoded names. Sentinel files named like the " +
-			"stores' own files (data, _persist, _torrentmeta, _last_access_time) sit in every ancestor and sibling directory. After every " +
+			"stores' own files (data, _persist, _torrentmeta, _last_access_time) sit in every ancestor and sibling directory, including siblings " +
+			"named upload.bak, upload2, cache.bak, cache-old (and an entry directory victim/ inside the .bak ones). After every " +
 			"request the whole box outside the two store directories is compared with its state before (created / modified / deleted " +
 			"objects), responses are searched for sentinel contents, new cache files of the origin must lie in the shard directory of a digest " +
 			"of the case, a planted victim blob must be untouched, and the first accepted tag of a case must be found inside the cache directory " +
